@@ -74,7 +74,11 @@ SyntaxVisitor::Action TypedefNameTypeResolver::visitIdentifierDeclarator(
     PSY_ASSERT_2(decl, return Action::Quit);
     PSY_ASSERT_2(decl->kind() == SymbolKind::TypedefDeclaration, return Action::Quit);
     auto tydefDecl = decl->asTypedefDeclaration();
+    // The synonymized type is rewritten in place: a typedef that names itself
+    // (in incomplete code) must not be entered again through its own name.
+    tydefDeclsUnderResolution_.insert(tydefDecl);
     auto resolvedTy = resolve(tydefDecl->synonymizedType());
+    tydefDeclsUnderResolution_.erase(tydefDecl);
     auto tydefNameTy = tydefDecl->introducedSynonymType();
     const_cast<TypedefNameType*>(tydefNameTy)->setResolvedSynonymizedType(resolvedTy);
 
